@@ -7,7 +7,7 @@ MC = "model_checking"
 CHECKS = {
  "C04": dict(engine="tlc-trace", design_ref="DESIGN.md §4 C04",
    technique="TLA+ spec (ReplayDetector.tla StepSafe) + TLC exhaustive MC + transition-tour replay and real-scale driver traces validated by TLC",
-   text="TLC checks NoDoubleAccept on the exact sliding-window rule for every configuration W<=5, Max<=11 (both kinds); every transition of that state graph is replayed on the real detector and seeded real-scale histories (windows around every multiple of 64 up to 400, maxima up to 2^64-1, limb-encoded) are recorded; every recorded trace is validated by TLC against the C04 safety spec. A violation is a real recorded history the spec rejects.",
+   text="TLC checks NoDoubleAccept on the exact sliding-window rule for every configuration W<=5, Max<=11 (both kinds); every transition of that state graph is replayed on the real detector and seeded real-scale histories (windows around every multiple of 64 up to 400, maxima up to 2^64-1, limb-encoded) are recorded; every recorded trace is validated by TLC against the C04 safety spec. Histories in which accept callbacks are invoked later than the next Check (several checks outstanding, callbacks in any order or never: ReplayOut.tla, MC_ReplayOut with two callback slots) are generated as tours of that graph and by a real-scale driver with four slots and validated the same way. A violation is a real recorded history the spec rejects.",
    note="trusts TLC, the Json/IOUtils modules, Num.tla (checked against naturals at Base 4); exhaustive only within the stated constants; real-scale part is sampled"),
  "C05": dict(engine="tlc-trace", design_ref="DESIGN.md §4 C05",
    technique="TLA+ spec (ReplayDetector.tla StepExact) + TLC exhaustive MC + transition-tour replay and real-scale driver traces validated by TLC",
@@ -30,16 +30,16 @@ CHECKS = {
    text="TLC checks that the token-bucket algorithm (as transcribed from tbf.go) never makes a departure the automaton forbids, for all small arrival/option-change patterns; seeded arrival plans (idle gaps to 10^7 ms, bursts far above the rate, sizes 0..2x burst, run-time rate/burst changes) run on the real TokenBucketFilter in exact virtual time; every arrival/departure is validated by TLC: burst+rate bound over all sub-intervals, FIFO, no duplicate, unmodified, discard only when the byte queue is full.",
    note="virtual time via testing/synctest; integer-exact because rates are multiples of 8000 bit/s (1 byte slack for float arithmetic); lowered rate/burst take effect within a 1 s grace, raised ones immediately (lenient reading)"),
  "C16": dict(engine="tlc-trace", design_ref="DESIGN.md §4 C16",
-   technique="TLA+ spec (LossFilter.tla) + TLC MC + 10 000-datagram streams per chance through the real filter validated by TLC, integer 7-sigma monitor for the drop fraction",
-   text="Every datagram handed to the real LossFilter is logged with what the next NIC received during the call; TLC validates: chance<=0 forwards all, >=100 none, never anything but the datagram itself at most once (in-order subsequence, unmodified), and at the end of each stream the drop count within 7 sigma of chance/100.",
-   note="the probability clause is a statistical monitor, not a proof; global math/rand is not controlled"),
+   technique="TLA+ spec (LossFilter.tla) + TLC MC + 10 000-datagram streams per chance through the real filter, plus re-entrant use (the next NIC hands in further datagrams from within the call), validated by TLC; integer 7-sigma monitor for the drop fraction",
+   text="Every datagram handed to the real LossFilter is logged with what the next NIC received during the call; TLC validates: chance<=0 forwards all, >=100 none, never anything but the datagram itself at most once (in-order subsequence, unmodified), and at the end of each stream the drop count within 7 sigma of chance/100. In the re-entrant runs the forwarded sequence of every outermost call must be an in-order, duplicate-free subsequence of the hand-ins (all of them at chance <= 0, none at >= 100).",
+   note="the probability clause is a statistical monitor, not a proof; global math/rand is not controlled; concurrent callers of one filter are not exercised (the property quantifies over input streams)"),
  "C20": dict(engine="tlc-trace", design_ref="DESIGN.md §4 C20",
    technique="TLA+ transcription of XorBytes (Xor.tla, Bitwise) ; TLC enumerates the structural case space (lengths x offsets x aliasing) and validates every real call's full before/after contents",
    text="TLC enumerates 32 076 (quick) / 221 952 (thorough) structural cases: len(a), len(b) in 0..17 (0..33), start offsets of the three slices, dst==a, dst==b, disjoint, slack in dst; each is executed on the real XorBytes with seeded contents inside guard-padded arrays plus random long inputs; TLC recomputes the expected bytes and compares return value, dst, a, b; guard bytes checked by the harness.",
    note="only the crypto/subtle-backed build of XorBytes exists on this toolchain; contents are sampled, structure is exhaustive within the bounds"),
  "C08": dict(engine="vrt-sched", design_ref="DESIGN.md §4 C08",
    technique="TLA+ protocol model (MC_BufferSync.tla) + linearizability/quiescence trace spec (BufferConc.tla); real Buffer under a gate scheduler (yield points inserted by tools/instr) in synctest bubbles, schedules enumerated depth-first then seeded random; every schedule's call/return/quiescence history validated by TLC",
-   text="TLC checks NoStuckReader/CloseWakesAll/EventuallyServed on the wake-up protocol (and that the protocol without re-posting violates it). The real Buffer, with a yield before every lock/channel/select operation, runs scenario families (up to 3 readers, 3 writes, Close, past/future/cleared deadlines with the clock advancing, deadline re-arm races) under all schedules up to a budget per scenario (exhaustive where marked) plus seeded random schedules; at exact quiescence every unreturned call must be a Read that legitimately waits (empty, open, deadline not passed) and every returned call must linearize on the FIFO spec.",
+   text="TLC checks NoStuckReader/CloseWakesAll/EventuallyServed on the wake-up protocol (and that the protocol without re-posting violates it). The real Buffer, with a yield before every lock/channel/select operation, runs scenario families (up to 3 readers, 3 writes, writes immediately followed by Close, past/future/cleared deadlines with the clock advancing, deadline re-arm races) under all schedules up to a budget per scenario (exhaustive where marked) plus seeded random schedules; at exact quiescence every unreturned call must be a Read that legitimately waits (empty, open, deadline not passed) and every returned call must linearize on the FIFO spec. Free-running writers, readers, limit setters and a closer (real parallelism, no scheduler) add histories judged by the same spec.",
    note="critical sections are atomic steps; Go's random select choice is uncontrolled; exhaustive only for the scenarios the evidence marks exhaustive; schedule space beyond the budget is sampled"),
  "C14": dict(engine="vrt-sched", design_ref="DESIGN.md §4 C14",
    technique="TLA+ delay-line spec (DelayLine.tla) + synchronisation-level model (MC_DelaySync.tla); real DelayFilter under the gate scheduler in real time, free-running producers, router MinDelay in exact virtual time and with jitter in real time; arrival/departure traces validated by TLC",
@@ -51,30 +51,30 @@ CHECKS = {
    note="Bridge tours are sampled in the quick tier (all edges in thorough); ReorderNextNWrites is not re-armed mid-collection; payload tail checked by the harness"),
  "C10": dict(engine="tlc-trace", design_ref="DESIGN.md §4 C10",
    technique="TLA+ contract spec (ReadDeadline.tla) + TLC MC + transition-tour, directed and random histories replayed through 4 connection types in virtual time (and the vnet socket in real time); traces validated by TLC",
-   text="One contract spec (timeout only if a non-zero deadline has passed; expiry sticky until reset, also with data queued; a read cannot stay blocked with data queued or once its deadline passed) is checked by TLC for implementability; every transition of its state graph plus directed histories (expiry while nobody reads then extended, two reads after expiry, re-arm after expiry) and seeded random histories run on packetio.Buffer, dpipe, Bridge endpoints and vnet UDP sockets in exact virtual time, and on the vnet socket in real time under the module's own timer semantics; call/return instants and results are validated by TLC.",
-   note="udp listener connections read through packetio.Buffer and are exercised by the C11/C12 harness; real-time run uses 150 ms margins on both sides of every deadline"),
+   text="One contract spec (timeout only if a non-zero deadline has passed; expiry sticky until reset, also with data queued; a read cannot stay blocked with data queued or once its deadline passed) is checked by TLC for implementability; every transition of its state graph plus directed histories (expiry while nobody reads then extended, two reads after expiry, re-arm after expiry) and seeded random histories run on packetio.Buffer, dpipe, Bridge endpoints and vnet UDP sockets in exact virtual time, and on the vnet socket and a udp listener connection in real time under the module's own timer semantics; in a further family the deadline is cleared or moved at the very instant it expires (the expiry callback races the setter; sleeping before or after arming, with and without yields); call/return instants and results are validated by TLC.",
+   note="real-time runs keep every action at least a quarter tick (100 ms) away from any deadline and re-synchronise to the wall clock; udp listener connections need real sockets and run in real time only"),
  "C11": dict(engine="vrt-sched", design_ref="DESIGN.md §4 C11",
    technique="TLA+ spec with call/linearize/return and read-loop dispatch (UDPListener.tla) + TLC MC (OneConnPerRemote, Isolation) ; real listener over an in-memory socket under the gate scheduler + sequential histories over real loopback sockets with and without batch reads; traces validated by TLC (Judge=demux)",
-   text="TLC checks one-connection-per-remote, isolation and backlog bounds on the spec for all interleavings of 3 datagrams and 4 client operations. The real listener (net.ListenUDP redirected to an in-memory socket, yields at every lock/channel/select/WaitGroup operation) runs concurrent scenario families under enumerated and random schedules plus seeded sequential histories (4 remotes, accept filter, backlog 2, close and re-open); the same histories run over real loopback sockets with batch reads on and off; every send, call, return and quiescence point is validated by TLC: each datagram only to the connection of its remote, in order, first datagram readable, refused/overflowing datagrams create nothing, fresh connection after close.",
+   text="TLC checks one-connection-per-remote, isolation and backlog bounds on the spec for all interleavings of 3 datagrams and 4 client operations. The real listener (net.ListenUDP redirected to an in-memory socket, yields at every lock/channel/select/WaitGroup operation) runs concurrent scenario families under enumerated and random schedules plus seeded sequential histories (4 remotes, accept filter, backlog 2, close and re-open); the same histories run over real loopback sockets with batch reads off, on, and on with an undeliverable datagram left in the write batch when everything is closed (a Close that does not return is recorded as a blocked call); every send, call, return and quiescence point is validated by TLC: each datagram only to the connection of its remote, in order, first datagram readable, refused/overflowing datagrams create nothing, fresh connection after close.",
    note="datagram payloads are self-describing (id, remote, filler) and checked by the harness; loopback treated as loss-free for a few small datagrams; schedule space sampled within budget"),
  "C12": dict(engine="vrt-sched", design_ref="DESIGN.md §4 C12",
    technique="same spec and traces as C11, judged for lifecycle (Judge=life): socket open iff listener or an accepted connection is open, Accept after Close fails, accepted connections keep working, no package goroutine left",
-   text="Scenario families race Accept, listener Close, connection Close, reads, writes and arrivals (0..2 accepted, 0..3 unaccepted connections) under the gate scheduler; at exact quiescence the in-memory port must be bound exactly when the spec says the socket is referenced, read loop and closer goroutine must be gone once it is not, every unreturned call must be legitimately waiting, writes on open accepted connections must succeed; the real-socket run checks that the OS port can be re-bound.",
+   text="Scenario families race Accept, listener Close, connection Close, reads, writes and arrivals (0..2 accepted, 0..3 unaccepted connections) under the gate scheduler; at exact quiescence the in-memory port must be bound exactly when the spec says the socket is referenced, read loop and closer goroutine must be gone once it is not, every unreturned call must be legitimately waiting, writes on open accepted connections must succeed; the real-socket run checks that the OS port can be re-bound and that closing everything returns (also when the final flush of a write batch fails). Write batching of udp.BatchConn has its own specification (specs/batch) whose real-socket traces are reported as notes.",
    note="as C11"),
  "C17": dict(engine="vrt-sched", design_ref="DESIGN.md §4 C17",
    technique="TLA+ model of the ReadContext/WriteContext algorithm (MC_NetCtx.tla: NoLeftoverDeadline, EmptyHandedOnlyIfCancelled, PromptReturn) + observable contract spec (CtxOp.tla, Stream.tla); real wrappers over an observable fake connection under the gate scheduler with the cancellation placed at every synchronisation step, plus byte-conservation runs over net.Pipe; traces validated by TLC",
-   text="TLC checks the watcher/operation protocol (and that a watcher which does not restore the deadline violates NoLeftoverDeadline). netctx.Conn, netctx.PacketConn and connctx, instrumented with yields, run read and write operations followed by probe operations with live contexts while the environment cancels and feeds data at every possible point (schedules enumerated exhaustively for the 2-operation scenarios); every call, transfer, return (n, error class, deadline register) and quiescence point is validated by TLC: reported n equals bytes transferred, empty-handed only if cancelled, no deadline left behind, no watcher goroutine left, cancelled operations never stay blocked. Stream runs over net.Pipe with seeded cancellations and timeouts on both ends check that the bytes received continue the stream exactly and equal the bytes reported written.",
+   text="TLC checks the watcher/operation protocol (and that a watcher which does not restore the deadline violates NoLeftoverDeadline). netctx.Conn, netctx.PacketConn and connctx, instrumented with yields, run read and write operations followed by probe operations with live contexts while the environment cancels and feeds data at every possible point (schedules enumerated exhaustively for the 2-operation scenarios; contexts with and without a far deadline; scenarios with fewer feeds than operations so that a cancelled operation cannot be rescued by data arriving later); every call, transfer, return (n, error class, deadline register) and quiescence point is validated by TLC: reported n equals bytes transferred, empty-handed only if cancelled, no deadline left behind, no watcher goroutine left, cancelled operations never stay blocked. Stream runs over net.Pipe with seeded cancellations and timeouts on both ends check that the bytes received continue the stream exactly and equal the bytes reported written.",
    note="the fake connection is the harness's; Go's random select choice is uncontrolled (DFS counts vary slightly between runs); packet flavour is exercised on the fake only"),
  "C02": dict(engine="tlc-trace", design_ref="DESIGN.md §4 C02",
    technique="TLA+ spec of RFC 4787 mapping (NAT.tla) + TLC MC (ExtInjective, ExtValid) + transition tours, lifetime grid, random multi-endpoint histories and a 16 500-mapping exhaustion history on the real translator in virtual time; traces validated by TLC (Judge=map)",
-   text="TLC checks external-address injectivity/validity on NAT.tla for all 9 NAPT types and 1:1 mode over 2 internal x 3 remote endpoints; the tours, a grid of gaps around the mapping lifetime, seeded histories over 12 internal and 9+ remote endpoints (routers with one or two WAN addresses) and a history that opens more mappings than the dynamic range has ports run on the real newNAT/translateOutbound/translateInbound in virtual time; TLC validates every outbound translation: same key <=> same external address while alive, fresh address valid and not held by a live mapping, refresh on outbound use, drop only when 16384 mappings are alive, payload and destination untouched, 1:1 rewrite with port preserved.",
+   text="TLC checks external-address injectivity/validity on NAT.tla for all 9 NAPT types and 1:1 mode over 2 internal x 3 remote endpoints; the tours, a grid of gaps around the mapping lifetime, seeded histories over 12 internal and 9+ remote endpoints whose textual addresses are prefixes of each other (routers with one or two WAN addresses; 1:1 pairs that share addresses between the local and the external side) and a history that takes the port counter twice round the dynamic range (expired mappings inherited by live ones whose former owners resume; flows kept alive whose ports must be passed over) run on the real newNAT/translateOutbound/translateInbound in virtual time; TLC validates every outbound translation: same key <=> same external address while alive, fresh address valid and not held by a live mapping, refresh on outbound use, drop only when 16384 mappings are alive, payload and destination untouched, 1:1 rewrite with port preserved.",
    note="in-package binding (names newNAT, translateOutbound, translateInbound, natConfig); inbound results are C03's; end-to-end binding through routers is C01's"),
  "C03": dict(engine="tlc-trace", design_ref="DESIGN.md §4 C03",
    technique="same spec and traces as C02, judged for filtering (Judge=filter): inbound admitted iff a live mapping owns the address and the sender matches a recorded permission; forwarded to the mapping's creator; refused inbound changes nothing",
    text="Inbound datagrams from contacted, same-IP-other-port and never-contacted remotes to live, expired, never-allocated and other-WAN-address targets are interleaved with outbound traffic and clock steps; TLC validates admission, the forwarding target, unchanged source/payload, that inbound traffic never prolongs a mapping, and 1:1 forwarding of paired/unpaired addresses.",
    note="as C02; external addresses are taken as given in this mode"),
  "C13": dict(engine="tlc-trace", design_ref="DESIGN.md §4 C13",
-   technique="TLA+ spec of address assignment and socket binding (VNetAddr.tla) + TLC MC (AtMostOneCovers, NICsInSubnet) + transition tours through the four bind entry points, random bind/close histories with stale double-closes, 1001-bind ephemeral exhaustion, and 270-NIC static/automatic mixes; traces validated by TLC",
+   technique="TLA+ spec of address assignment and socket binding (VNetAddr.tla) + TLC MC (AtMostOneCovers, NICsInSubnet) + transition tours through the four bind entry points, random bind/close histories with stale double-closes, 1001-bind ephemeral exhaustion, and 270-NIC static/automatic mixes on subnets from /24 to /30 (also ones that do not start at .0); traces validated by TLC",
    text="TLC checks that at most one open socket covers any address and that NIC addresses stay inside the subnet for all small histories; every transition of the bind/close graph is replayed on a real Net through ListenUDP/ListenPacket/DialUDP/Dial with wildcard, loopback, two host addresses and a foreign address, specific and zero ports, probing after each step which socket an inbound datagram would reach; seeded histories add stale double-closes and exhaust the 5000-5999 range on one address, the wildcard and a mix; on routers, seeded mixes of static (inside/outside the subnet, inside the automatic range, .0/.255) and automatic assignment attach 270 NICs (hosts and child routers); TLC validates every result: bind succeeds exactly when the ip is bindable and uncovered, chosen ephemeral port free and in range, failure only when none is free, close frees, demux to the covering socket, automatic address in subnet and unheld.",
    note="demux is observed on the host's socket table in-package (udpConns.find); an automatic assignment may report an error at any time; duplicate statics are not exercised"),
  "C01": dict(engine="tlc-trace", design_ref="DESIGN.md §4 C01",
